@@ -157,11 +157,23 @@ impl FileDesc {
         {
             // Calculate the source block length of Raptor / RaptorQ
 
-            let (a_large, _, _, nb_blocks) = partition::block_partitioning(
+            let (a_large, a_small, nb_a_large, nb_blocks) = partition::block_partitioning(
                 oti.maximum_source_block_length as u64,
                 object.transfer_length,
                 oti.encoding_symbol_length as u64,
             );
+
+            // The Raptor codec (RFC 5053, K >= 4) cannot build a source block of 2 or 3 symbols
+            if oti.fec_encoding_id == oti::FECEncodingID::Raptor {
+                let cannot_encode = |k: u64| k == 2 || k == 3;
+                if (nb_a_large > 0 && cannot_encode(a_large))
+                    || (nb_a_large < nb_blocks && cannot_encode(a_small))
+                {
+                    return Err(FluteError::new(
+                        "Source blocks of 2 or 3 symbols cannot be encoded by Raptor, your object is incompatible with the FEC parameters of your OTI",
+                    ));
+                }
+            }
 
             // Maximum number of source symbols per block supported by the codec
             // (RFC 6330 K'_max for RaptorQ, RFC 5053 K_max for Raptor)
